@@ -800,53 +800,89 @@ def run_binner_histories(ctx, tmp, only=None):
     q = ctx.tier == 'quick'
     if only is None:
         BH.check_design(ctx, thorough=not q)
-    A, walks = BH.generate(ctx, thorough=not q)
+        A, walks = BH.generate(ctx, thorough=not q)
+    else:       # --replay: the alphabet the recorded sequences were drawn from
+        A, walks = BH.generate(ctx, thorough=any(o['g'] > 4 for v in only for o in v['ops']), nwalks=20, unit=only[0].get('unit'))
     path = os.path.join(tmp, 'hist.h5')
 
-    def store(d):
-        with HDF5Output(path) as o:
-            o.store_dictionary(d, group_name='Spectra')
-        with h5py.File(path, 'r') as f:
-            return {k: f['Spectra'][k][...] for k in f['Spectra']}
+    class Sink:
+        """Every output dictionary of the long-lived binners is written (group S<n>) the moment it is produced; after the
+        run the file is read back with h5py and must hold bit for bit what was judged (a copy taken at the call)."""
+        def __init__(self):
+            self.o = HDF5Output(path)
+            self.o.open()
+            self.snaps = []
+
+        def store(self, d):
+            self.o.store_dictionary(d, group_name='S%d' % len(self.snaps))
+            self.snaps.append({k: np.array(v, copy=True) for k, v in d.items()})
+            return d
+
+        def reload(self):
+            self.o.close()
+            bad = {}
+            with h5py.File(path, 'r') as f:
+                for n, snap in enumerate(self.snaps):
+                    g = f['S%d' % n]
+                    got = {k: g[k][...] for k in g}
+                    diff = sorted(set(got) ^ set(snap)) + [k for k in snap if k in got and not (got[k].shape == snap[k].shape and np.array_equal(got[k], snap[k], equal_nan=True))]
+                    if diff:
+                        bad[n] = diff
+            return bad
     makers = dict(flux=lambda: FluxBinner(np.array(A.tc), np.array(A.tw)),            # handed over unsorted: the constructor sorts
                   simple=lambda: SimpleBinner(np.array(A.c), np.array(A.w)),          # SimpleBinner expects an ascending grid
                   native=lambda: NativeBinner())
     if only is not None:
-        todo = [(v['kind'], [dict(ops=v['ops'], src='replay', flux=[], simple=[])], True) for v in only]
+        todo = [(v['kind'], [dict(ops=v['ops'], src='replay', flux=[], simple=[])], 'all') for v in only]
     else:
         longer = [w for w in walks if w['src'] == 'walk']
-        # the flux binner: every sequence, every output through the file; the stateless binners: every sequence, the longer ones through the file
-        todo = [('flux', walks, True), ('simple', [w for w in walks if w['src'] == 'pair'], False), ('simple', longer, True),
-                ('native', [w for w in walks if w['src'] == 'pair'], False), ('native', longer, True)]
-    n = nstored = 0
+        pairs = [w for w in walks if w['src'] == 'pair']
+        # through the file: the flux binner -- every output of the longer sequences, the second output of every pair (the first
+        # call of a pair is the first call of a longer sequence as well); the stateless binners -- the last output of the longer ones
+        todo = [('flux', pairs, 'last'), ('flux', longer, 'all'), ('simple', pairs, None), ('simple', longer, 'last'),
+                ('native', pairs, None), ('native', longer, 'last')]
+    sink = Sink()
+    results = []
     for kind, ws, through_file in todo:
-        for w, problems in BH.replay(A, kind, makers[kind], ws, store=store if through_file else None):
-            ops = w['ops']
-            n += 1
-            vec = dict(binner_history=True, kind=kind, ops=ops, unit=A.U)
-            nstored += through_file * sum(o['k'] == 'output' for o in ops)
-            clauses = {'HistoryIndependent'}
-            if any(o['k'] == 'output' for o in ops):
-                clauses |= {'BinnedSpectrum', 'NativeGrid'} | ({'BinnedWlWidth'} if kind != 'native' else set())
-                if kind != 'native' and any(o['k'] == 'output' and o['size'] != 'lighter' for o in ops):
-                    clauses.add('BinnedTau')
-            by = {}
-            for j, tag, detail in problems:
-                c = HIST_CLAUSE.get(tag, 'HistoryIndependent') if ops[j]['k'] == 'output' else 'HistoryIndependent'
-                by.setdefault(c, (j, tag, detail))
-            for c in sorted(clauses | set(by)):
-                if c in by:
-                    j, tag, detail = by[c]
-                    ctx.verdict(c, False, cls=BH.failure_class(A, kind, ops, j), vector=vec,
-                                detail='one %s binner, calls %s: call %d (%s) -- %s' % (kind, BH.trail(ops), j + 1, tag, detail))
-                else:
-                    ctx.verdict(c, True, cls='history:' + kind, vector=vec)
+        n0 = len(sink.snaps)
+        for w, problems in BH.replay(A, kind, makers[kind], ws, store=sink.store if through_file else None, store_last_only=through_file == 'last'):
+            stored = [j for j, o in enumerate(w['ops']) if o['k'] == 'output' and (through_file == 'all' or (through_file == 'last' and j == len(w['ops']) - 1))]
+            if len(stored) != len(sink.snaps) - n0 and not problems:
+                raise Machinery('binner histories: %d output dictionaries written for %d output calls' % (len(sink.snaps) - n0, len(stored)))
+            results.append((kind, w, problems, list(zip(range(n0, len(sink.snaps)), stored))))
+            n0 = len(sink.snaps)
+    unstored = sink.reload()
+    n, nstored = len(results), len(sink.snaps)
+    for kind, w, problems, stored in results:
+        ops = w['ops']
+        vec = dict(binner_history=True, kind=kind, ops=ops, unit=A.U)
+        outs = [j for j, o in enumerate(ops) if o['k'] == 'output']
+        for idx, j in stored:
+            if idx in unstored:
+                problems = problems + [(j, 'stored', 'the file does not hold the output dictionary that was computed: %s' % unstored[idx])]
+        clauses = {'HistoryIndependent'}
+        if outs:
+            clauses |= {'BinnedSpectrum', 'NativeGrid'} | ({'BinnedWlWidth'} if kind != 'native' else set())
+            if kind != 'native' and any(ops[j]['size'] != 'lighter' for j in outs):
+                clauses.add('BinnedTau')
+        by = {}
+        for j, tag, detail in problems:
+            c = 'RoundTrip' if tag == 'stored' else (HIST_CLAUSE.get(tag, 'HistoryIndependent') if ops[j]['k'] == 'output' else 'HistoryIndependent')
+            by.setdefault(c, (j, tag, detail))
+        for c in sorted(clauses | set(by)):
+            if c in by:
+                j, tag, detail = by[c]
+                ctx.verdict(c, False, cls=BH.failure_class(A, kind, ops, j), vector=vec,
+                            detail='one %s binner, calls %s: call %d (%s) -- %s' % (kind, BH.trail(ops), j + 1, tag, detail))
+            else:
+                ctx.verdict(c, True, cls='history:' + kind, vector=vec)
     if only is None:
-        ncan = BH.canary(A, walks)
+        # the doubles are built on the real FluxBinner: once the real binner fails the canary concludes nothing
+        ncan = BH.canary(A, walks) if not ctx.has_violations() else 0
         ctx.traces += n
         ctx.note('binner histories: %d operation sequences (all %d ordered pairs of %d operations + longer ones) replayed on one FluxBinner / '
                  'SimpleBinner / NativeBinner each, %d output dictionaries through HDF5; canary: %d sequences on the harness\'s own memo / in-place mutants'
-                 % (n, len([w for w in walks if w['src'] == 'pair']), len(A.table['flux']), nstored, ncan))
+                 % (n, len(pairs), len(A.table['flux']), nstored, ncan))
         ctx.add_sample(dict(binner_history=walks[-1]['ops'], exposes=dict(flux=walks[-1]['flux'], simple=walks[-1]['simple'])))
 
 
@@ -1332,6 +1368,7 @@ def replay(ctx, violations):
         done = set()
         table = sweep_table(sweep_files(tmp))
         tables = run_tlc('MC_Output', 'MC_Output_numpy2.cfg', workers=1, allow_violation=True)
+        hist = []
         for viol in violations:
             v = viol['vector'] or {}
             if 'dict' in v and 'tree' in v:
@@ -1346,7 +1383,7 @@ def replay(ctx, violations):
             elif 'sweep' in v:
                 run_model_roundtrips(ctx, [c for c in sweep_cases(table, (tuple(v['in_model']) if v.get('in_model') else None,)) if c['vec'].get('variant') == v['variant'] and c['vec']['sweep'] == v['sweep']], tmp, classes)
             elif v.get('binner_history'):
-                run_binner_histories(ctx, tmp, only=[v])
+                hist.append(v)
             elif v.get('tau') and 'tau' not in done:
                 done.add('tau')
                 ev, bib = run_size_callers(ctx, tmp, classes, rng, tables.tagged('TAU')[0])
@@ -1358,6 +1395,8 @@ def replay(ctx, violations):
             elif not ({'tau', 'bib'} & set(v)) and 'spec' not in done:
                 done.add('spec')
                 run_spectrum_outputs(ctx, tables.tagged('KEYS')[0], tmp, classes)
+        if hist:
+            run_binner_histories(ctx, tmp, only=hist)
     finally:
         shutil.rmtree(tmp, ignore_errors=True)
         try:
